@@ -627,3 +627,27 @@ def simulate(module, cfg, num, depth, seed, workers=1):
       behaviours.append(steps)
   shutil.rmtree(d, ignore_errors=True)
   return behaviours, res
+
+
+def sharded_events(chk, driver, first_arg, trace_spec, tier, seed, tag, nshards=14, extra_env=None):
+  """Like sharded_conformance but without per-shard configuration files: returns (rejects, errors, events) where
+  rejects = [(event, clauses)], errors = driver-side error records, events = all recorded events."""
+  root = scratch_root()
+  prefix = os.path.join(root, tag)
+  outs = run_drivers_parallel([(driver, [first_arg, prefix, tier, seed, s, nshards]) for s in range(nshards)])
+  shards = []
+  for s in range(nshards):
+    n = json.loads(outs[s].strip().splitlines()[-1])["events"]
+    env = {"TRACE_FILE": "%s.%d.ndjson" % (prefix, s)}
+    env.update(extra_env or {})
+    shards.append({"env": env, "n": n})
+  prints = judge_shards(chk, trace_spec, trace_spec, shards)
+  rejects, errors, events = [], [], []
+  for s in range(nshards):
+    evs = read_ndjson("%s.%d.ndjson" % (prefix, s)) if shards[s]["n"] else []
+    events += evs
+    errors += json.load(open("%s.%d.err.json" % (prefix, s)))
+    for p in prints[s]:
+      if p and p[0] == "REJECT":
+        rejects.append((evs[p[1] - 1], p[2]))
+  return rejects, errors, events
